@@ -1218,6 +1218,9 @@ func (v *variantCallPacket) UnmarshalBinary(data []byte) (err error) {
 	}
 	p = p[v.TransactionID.Size():]
 
+	// The command object is optional, drop the preset one for the
+	// size must be the bytes consumed.
+	v.CommandObject = nil
 	if len(p) > 0 {
 		if v.CommandObject, err = amf0.Discovery(p); err != nil {
 			return oe.WithMessage(err, "discovery command object")
